@@ -5,9 +5,11 @@ CONSTANTS
  N = 2
  RA = 50
  Kinds = {"ok", "ok206", "short0", "short1", "short206", "okclbad", "ok200", "reset", "s429", "s429ra", "s408", "s500", "s502", "s504", "s403", "s503", "s404", "s416", "s401n", "s401s", "s401b"}
- MaxFaults = 3
+ MaxFaults = 2
  MaxSeeks = 1
  Conc = 8
+ LinkEntries = FALSE
+ Directs = {"none"}
  StoreAnchor = TRUE
  RelNR = TRUE
  FixLeak = TRUE
